@@ -59,6 +59,67 @@ def raise_(cls, *args):
     raise PyRaise(cls, PyExcVal(cls, args))
 
 
+def mk_pow2(ip, e):
+    """2**e as a term with ground instances of the pow2 laws relative to the other pow2 terms of this
+    path (no quantified axioms needed): positivity, exact ratio when the exponents differ by a
+    constant, monotonicity otherwise, anchors at small constants."""
+    e = zint(e)
+    c = sym.concrete_int(e)
+    if c is not None and c >= 0:
+        return z3.IntVal(1 << c)
+    es = z3.simplify(e)
+    terms = ip.ctx.ghost.setdefault('pow2_terms', [])
+    for e2, t2 in terms:
+        if e2.eq(es):
+            return t2
+    t = sym.pow2(es)
+    A = ip.ctx.define
+    A(z3.Implies(es >= 0, t >= 1))
+    for cst in (0, 1, 7, 8, 15, 16, 31, 32, 63, 64):
+        A(z3.Implies(es >= cst, t >= (1 << cst)))
+        A(z3.Implies(es == cst, t == (1 << cst)))
+    for e2, t2 in terms:
+        d = z3.simplify(es - e2)
+        if z3.is_int_value(d):
+            k = d.as_long()
+            if k >= 0:
+                A(z3.Implies(e2 >= 0, t == (1 << k) * t2))
+            else:
+                A(z3.Implies(es >= 0, t2 == (1 << -k) * t))
+        else:
+            A(z3.Implies(z3.And(0 <= es, es <= e2), t <= t2))
+            A(z3.Implies(z3.And(0 <= e2, e2 <= es), t2 <= t))
+            A(z3.Implies(z3.And(0 <= es, es < e2), 2 * t <= t2))
+            A(z3.Implies(z3.And(0 <= e2, e2 < es), 2 * t2 <= t))
+    terms.append((es, t))
+    return t
+
+
+def mk_bitlen(ip, n):
+    n = zint(n)
+    t = sym.bitlen(n)
+    seen = ip.ctx.ghost.setdefault('bitlen_terms', [])
+    if any(x.eq(t) for x in seen):
+        return t
+    seen.append(t)
+    ip.ctx.define(z3.Implies(n == 0, t == 0))
+    ip.ctx.define(z3.Implies(n > 0, t >= 1))
+    lo, hi = mk_pow2(ip, t - 1), mk_pow2(ip, t)
+    ip.ctx.define(z3.Implies(n > 0, z3.And(lo <= n, n < hi)))
+    return t
+
+
+def mk_flog2(ip, n):
+    """floor(log2(n)) as CPython computes it through a double: ASSUMED (A-LOG2) never below
+    bitlen(n)-1 and over by at most one."""
+    n = zint(n)
+    t = sym.flog2(n)
+    b = mk_bitlen(ip, n)
+    ip.ctx.define(z3.Implies(n > 0, z3.And(t >= b - 1, t <= b)))
+    ip.ctx.ghost.setdefault('assumptions', set()).add('A-LOG2')
+    return t
+
+
 def pydiv(a, b):
     a, b = zint(a), zint(b)
     q, r = a / b, a % b
@@ -131,7 +192,7 @@ def binop(ip, op, a, b, inplace=False):
             if isinstance(a, int) and a == 2:
                 if not ip.ctx.branch(zint(b) >= 0, 'pow>=0'):
                     raise Unsupported('2**negative')
-                return sym.pow2(zint(b))
+                return mk_pow2(ip, b)
             cb = sym.concrete_int(b)
             if cb is not None and 0 <= cb <= 4:
                 r = z3.IntVal(1)
@@ -142,11 +203,15 @@ def binop(ip, op, a, b, inplace=False):
         if op == 'LShift':
             if not ip.ctx.branch(zint(b) >= 0, 'shift>=0'):
                 raise_(ValueError, 'negative shift count')
-            return zint(a) * sym.pow2(zint(b))
+            return zint(a) * mk_pow2(ip, b)
         if op == 'RShift':
             if not ip.ctx.branch(zint(b) >= 0, 'shift>=0'):
                 raise_(ValueError, 'negative shift count')
-            return zint(a) / sym.pow2(zint(b))      # pow2 > 0: floor division
+            p = mk_pow2(ip, b)
+            q = zint(a) / p                          # pow2 > 0: floor division
+            ip.ctx.define(p >= 1)
+            ip.ctx.define(z3.Implies(zint(a) >= 0, z3.And(q >= 0, (q == 0) == (zint(a) < p))))
+            return q
         if op in ('BitAnd', 'BitOr', 'BitXor'):
             return bitop(ip, op, a, b)
     # ---- bytes
@@ -435,6 +500,8 @@ def hdict_overlay(ip, base, top):
 def norm_index(ip, i, n, what='index'):
     """python index normalisation with IndexError."""
     i, n = zint(i), zint(n)
+    if ip.ctx.ghost.get('logic_mode', 0):
+        return i          # inside a quantifier body indexing is the total logical select
     if not ip.ctx.branch(z3.And(i >= -n, i < n), 'index'):
         raise_(IndexError, f'{what} out of range')
     ci = sym.concrete_int(i)
@@ -909,11 +976,12 @@ def int_to_bytes_model(ip, n, length=1, byteorder='big', signed=False):
     kk = zint(length)
     if not ip.ctx.branch(kk >= 0, 'to_bytes len>=0'):
         raise_(ValueError, 'length argument must be non-negative')
-    if not ip.ctx.branch(n < sym.pow2(8 * kk), 'to_bytes fits'):
+    if not ip.ctx.branch(n < mk_pow2(ip, 8 * kk), 'to_bytes fits'):
         raise_(OverflowError, 'int too big to convert')
     r = sym.tobytes(n, kk)
-    ip.ctx.assume(z3.Length(r) == kk)
-    ip.ctx.assume(sym.ubig(r) == n)
+    ok_ = z3.And(kk >= 0, n >= 0, n < mk_pow2(ip, 8 * kk))
+    ip.ctx.define(z3.Implies(ok_, z3.Length(r) == kk))
+    ip.ctx.define(z3.Implies(ok_, sym.ubig(r) == n))
     return sym_bytes(r, k if k is not None else kk)
 
 
@@ -940,8 +1008,8 @@ def int_from_bytes_model(ip, b, byteorder='big', signed=False):
         return z3.BV2Int(z3.simplify(bv))
     f = sym.ubig if byteorder == 'big' else sym.ulittle
     r = f(bexpr(b))
-    ip.ctx.assume(r >= 0)
-    ip.ctx.assume(r < sym.pow2(8 * zint(n)))
+    ip.ctx.define(r >= 0)
+    ip.ctx.define(r < mk_pow2(ip, 8 * zint(n)))
     return r
 
 
@@ -962,11 +1030,11 @@ def hash_digest(ip, h, size=None):
     e = bexpr(d)
     if h.algo == 'sha256':
         r = sym.sha256_f(e)
-        ip.ctx.assume(z3.Length(r) == 32)
+        ip.ctx.define(z3.Length(r) == 32)
         return sym_bytes(r, 32)
     if h.algo == 'sha512':
         r = sym.sha512_f(e)
-        ip.ctx.assume(z3.Length(r) == 64)
+        ip.ctx.define(z3.Length(r) == 64)
         return sym_bytes(r, 64)
     if h.algo == 'shake_256':
         n = zint(size)
@@ -974,7 +1042,7 @@ def hash_digest(ip, h, size=None):
             raise_(ValueError, 'negative digest length')
         ip.models.alloc(ip, n, 'shake_256.digest')
         r = sym.shake256_f(e, n)
-        ip.ctx.assume(z3.Length(r) == n)
+        ip.ctx.define(z3.Implies(n >= 0, z3.Length(r) == n))
         cn = sym.concrete_int(n)
         return sym_bytes(r, cn if cn is not None else n)
     raise Unsupported(f'hash {h.algo}')
@@ -1056,7 +1124,10 @@ def call_opaque(ip, fn, args, kwargs, method=None):
 def m_len(ip, v):
     v = ip.resolve(v)
     if is_concrete(v):
-        return len(v)
+        try:
+            return len(v)
+        except TypeError:
+            raise_(TypeError, f'object of type {type(v).__name__} has no len()')
     if is_bytes(v):
         return blen(v)
     if isinstance(v, HByteArray):
@@ -1215,7 +1286,7 @@ def m_floor(ip, v):
     if isinstance(v, SRat):
         return v.num / v.den
     if isinstance(v, SLog2):
-        return sym.flog2(v.n)
+        return mk_flog2(ip, v.n)
     if isint(v):
         return v
     raise Unsupported('floor of symbolic float')
@@ -1285,7 +1356,7 @@ def m_token_bytes(ip, n=None):
     alloc(ip, n, 'token_bytes')
     k = ip.ctx.count('token')
     r = sym.token_f(z3.IntVal(k), zint(n))
-    ip.ctx.assume(z3.Length(r) == zint(n))
+    ip.ctx.define(z3.Implies(zint(n) >= 0, z3.Length(r) == zint(n)))
     cn = sym.concrete_int(n)
     return sym_bytes(r, cn if cn is not None else zint(n))
 
@@ -1310,7 +1381,7 @@ def m_struct_pack(ip, fmt, *vals):
         if not ip.ctx.branch(sym.f_packok(e), 'pack fits'):
             raise_(OverflowError, 'float too large to pack with f format')
         r = sym.f_pack(e)
-        ip.ctx.assume(z3.Length(r) == 4)
+        ip.ctx.define(z3.Length(r) == 4)
         return sym_bytes(r, 4)
     raise Unsupported(f'struct.pack {fmt!r} on symbolic data')
 
